@@ -2932,9 +2932,12 @@ pub(crate) fn get_store_updates(
                 .into_iter()
                 .enumerate()
                 .filter(|&(audit_index, ref entry)| {
-                    // Keep the entry if it's importable (i.e. it could be used externally) or it's
-                    // used locally.
+                    // Keep the entry if it's importable (i.e. it could be used externally), it's
+                    // used locally, or it's a violation: a violation never lies on a certifying
+                    // path, so it is never "used", and dropping it would silently allow what it
+                    // forbids.
                     entry.importable
+                        || matches!(entry.kind, AuditKind::Violation { .. })
                         || entries.contains_key(&RequiredEntry::LocalAudit { audit_index })
                 })
                 .map(|(_, entry)| entry)
